@@ -188,6 +188,10 @@ func readCase(path string) ([]string, error) {
 	return ops, sc.Err()
 }
 
+// childModes: sub-commands a suite runs in a re-executed copy of this binary (`harness <mode> ...`), e.g. to
+// isolate a run whose race-detector report must be captured through the exit code.
+var childModes = map[string]func(){}
+
 func main() {
 	if len(os.Args) > 2 && os.Args[1] == "-child" {
 		if f, ok := children[os.Args[2]]; ok {
@@ -196,6 +200,12 @@ func main() {
 		}
 		fmt.Fprintln(os.Stderr, "unknown child", os.Args[2])
 		os.Exit(2)
+	}
+	if len(os.Args) > 1 {
+		if f, ok := childModes[os.Args[1]]; ok {
+			f()
+			return
+		}
 	}
 	var (
 		suiteName = flag.String("suite", "", "suite name")
